@@ -8,7 +8,7 @@ environment):
 
   * ACCEPTANCE   both constructions end the same way: both return, or both raise a ``KconfigError``.  Any other
                  exception (AttributeError, ValueError, RecursionError, ...) or no answer within LOAD_TIMEOUT
-                 seconds in either parser is a violation on its own ("reject" means: raise a Kconfig error).
+                 seconds of CPU time in either parser is a violation on its own ("reject" means: raise a Kconfig error).
   * TREE         if both return: the two menu trees are equal node by node (pre-order, with depth): entry kind,
                  name, type, is_menuconfig, prompt text, prompt condition, help text, and -- through
                  ``expr_str`` -- dep, visibility, defaults, ranges, selects, implies, sets, weak_sets; plus the
@@ -54,7 +54,7 @@ from rtc import gen  # noqa: E402
 NAME = "drv_parsers"
 PROPERTIES = ["C04"]
 
-LOAD_TIMEOUT = 6  # seconds per Kconfig() construction; normal constructions take 2..60 ms
+LOAD_TIMEOUT = 10  # CPU seconds per Kconfig() construction; normal constructions take 2..60 ms
 ENV_NAMES = tuple(gen.ENV_VARS)
 
 # ======================================================================================================
@@ -217,24 +217,25 @@ def apply_op(kconf, op):
 def load(path, version, env):
     """('ok', Kconfig) | ('reject', text) | ('crash(<Type>)', text) | ('hang', text)"""
     _reset_report()
-    old = signal.signal(signal.SIGALRM, _on_alarm)
-    signal.alarm(LOAD_TIMEOUT)
+    # the limit is CPU time of this process (ITIMER_PROF), not wall-clock time: a busy machine must not look like a hang
+    old = signal.signal(signal.SIGPROF, _on_alarm)
+    signal.setitimer(signal.ITIMER_PROF, LOAD_TIMEOUT)
     try:
         with _Env(env):
             kconf = K.Kconfig(path, parser_version=version)
-        signal.alarm(0)
+        signal.setitimer(signal.ITIMER_PROF, 0)
         return "ok", kconf
     except K.KconfigError as exc:
-        signal.alarm(0)
+        signal.setitimer(signal.ITIMER_PROF, 0)
         return "reject", "%s: %s" % (type(exc).__name__, exc)
     except _Hang:
-        return "hang", "no answer within %d s" % LOAD_TIMEOUT
+        return "hang", "no answer within %d s of CPU time" % LOAD_TIMEOUT
     except Exception as exc:
-        signal.alarm(0)
+        signal.setitimer(signal.ITIMER_PROF, 0)
         return "crash(%s)" % type(exc).__name__, "%s: %s" % (type(exc).__name__, exc)
     finally:
-        signal.alarm(0)
-        signal.signal(signal.SIGALRM, old)
+        signal.setitimer(signal.ITIMER_PROF, 0)
+        signal.signal(signal.SIGPROF, old)
 
 
 _WS_RUN = re.compile(r"[ \t]+")
@@ -296,7 +297,7 @@ def check_case(files, env, expect, ops_fn, root="Kconfig", relroot=False, fixtur
         if fields:
             ws_only = not diff_trees([(d, _ws(n)) for d, n in t1], [(d, _ws(n)) for d, n in t2])[0]
             res["symptoms"].append("tree~whitespace-runs" if ws_only else "tree:" + "+".join(fields))
-            res["detail"].append(text)
+            res["detail"].append(text.replace(td, "@ROOT@"))
         ops = list(ops_fn(k1)) if ops_fn else []
         res["ops"] = ops
         out_diff, first = set(), None
@@ -327,3 +328,572 @@ def check_case(files, env, expect, ops_fn, root="Kconfig", relroot=False, fixtur
 
 
 # --- CORE END ---
+
+
+# ======================================================================================================
+# SCOPE: generator corpus, repository fixtures, hand-written fragments, deliberately invalid sources
+# ======================================================================================================
+
+FIXTURE_ENV = {
+    # what test/kconfiglib/test_kconfiglib.py and test/gen_kconfig_doc set before loading the fixtures
+    "TEST_FILE_PREFIX": "@REPO@/test/kconfiglib/kconfigs/ok/kconfigs_for_sourcing",
+    "TEST_ENV_SET": "y",
+    "MAX_NUMBER_OF_MOTORS": "4",
+    "IDF_TARGET": "chipa",
+    "DOLLAR_TEST_VAR": "dollar",
+}
+
+_P = 'mainmenu "T"\n\n'
+# common prelude of the hand-written fragments (names are never valid hexadecimal numbers)
+_BASE = _P + '''config OPT_A
+    bool "opt a"
+    default y
+
+config OPT_B
+    bool "opt b"
+
+config OPT_C
+    bool "opt c"
+    default y
+
+config NUM_N
+    int "num n"
+    default 5
+
+config NUM_M
+    int "num m"
+    default 7
+
+config STR_S
+    string "str s"
+    default "text"
+
+config HEX_H
+    hex "hex h"
+    default 0x10
+
+config FLT_F
+    float "flt f"
+    default 1.5
+
+'''
+
+_FRAGS = []
+
+
+def _F(fid, body, files=None, env=None, base=True, relroot=False, expect="valid"):
+    _FRAGS.append({"id": fid, "text": (_BASE if base else "") + body, "files": dict(files or {}), "env": dict(env or {}),
+                   "relroot": relroot, "expect": expect})
+
+
+def _tgt(kind="bool"):
+    return 'config TGT\n    %s "tgt"\n' % kind
+
+
+# ---- reverse dependencies with conditions ------------------------------------------------------------
+_F("imply-if", 'config SRC\n    bool "src"\n    default y\n    imply TGT if OPT_A\n\n' + _tgt())
+_F("imply-if-compound", 'config SRC\n    bool "src"\n    default y\n    imply TGT if OPT_A && !OPT_B || NUM_N > 3\n\n' + _tgt())
+_F("imply-plain-and-depends", 'config SRC\n    bool "src"\n    default y\n    imply TGT\n\nconfig TGT\n    bool "tgt"\n    depends on !OPT_A\n')
+_F("select-if", 'config SRC\n    bool "src"\n    default y\n    select TGT if OPT_A\n\n' + _tgt())
+_F("select-if-compound", 'config SRC\n    bool "src"\n    default y\n    select TGT if (OPT_A || OPT_B) && NUM_N <= 5\n\n' + _tgt())
+_F("select-imply-twice", 'config SRC\n    bool "src"\n    default y\n    select TGT if OPT_A\n    select TGT2\n    imply TGT3\n    imply TGT if !OPT_B\n\n'
+   + _tgt() + '\nconfig TGT2\n    bool\n\nconfig TGT3\n    bool "tgt3"\n    depends on OPT_B\n')
+# ---- relations -----------------------------------------------------------------------------------------
+_F("rel-all-operators", 'config REL\n    int "rel"\n    default 1 if NUM_N = 5\n    default 2 if NUM_N != NUM_M\n    default 3 if NUM_N < 7\n'
+   '    default 4 if NUM_N > NUM_M\n    default 5 if NUM_N <= 5\n    default 6 if NUM_M >= 8\n    default 7\n')
+_F("rel-no-spaces", 'config REL\n    bool "rel"\n    default y if NUM_N=5&&NUM_M!=NUM_N||STR_S="text"\n    depends on NUM_N<=NUM_M\n')
+_F("rel-string-hex-float", 'config REL\n    bool "rel"\n    default y if STR_S = "text" && HEX_H >= 0x10 && FLT_F < 2.5\n    default n if STR_S != "a b" || HEX_H = 0xAB\n')
+_F("rel-bool-const", 'config REL\n    bool "rel"\n    depends on OPT_A = y && OPT_B != y\n    default y if OPT_B = n\n')
+_F("not-symbol", 'config REL\n    bool "rel"\n    depends on !OPT_B\n    default !OPT_A\n')
+_F("not-not", 'config REL\n    bool "rel"\n    depends on !!OPT_A\n')
+_F("not-paren-relation", 'config REL\n    bool "rel"\n    depends on !(NUM_N = 5)\n    default y if !(OPT_A && OPT_B)\n')
+_F("not-relation-eq", 'config REL\n    bool "rel"\n    depends on !OPT_A = OPT_B\n')
+_F("not-relation-lt", 'config REL\n    bool "rel"\n    default y if !NUM_N < NUM_M\n')
+_F("not-relation-in-and", 'config REL\n    bool "rel"\n    default y if OPT_C && !NUM_N != 5 || OPT_B\n')
+_F("relation-chain", 'config REL\n    bool "rel"\n    depends on OPT_A = OPT_B = OPT_C\n')
+_F("relation-paren-operand", 'config REL\n    bool "rel"\n    depends on (OPT_A) = OPT_B\n')
+_F("relation-not-operand-right", 'config REL\n    bool "rel"\n    depends on OPT_A = !OPT_B\n')
+# ---- chains, precedence, parentheses ------------------------------------------------------------------
+_F("chain-and", 'config REL\n    bool "rel"\n    depends on OPT_A && OPT_B && OPT_C && NUM_N > 1\n')
+_F("chain-or", 'config REL\n    bool "rel"\n    default y if OPT_A || OPT_B || OPT_C || NUM_N > 1\n')
+_F("chain-mixed-precedence", 'config REL\n    bool "rel"\n    default y if OPT_A || OPT_B && OPT_C\n    default n if OPT_A && OPT_B || OPT_C && !OPT_A || OPT_B\n')
+_F("chain-parens", 'config REL\n    bool "rel"\n    depends on (OPT_A || OPT_B) && (OPT_C) || (OPT_A && (OPT_B || !OPT_C))\n    default y if ((OPT_A))\n')
+_F("depends-on-multiple-lines", 'config REL\n    bool "rel"\n    depends on OPT_A\n    depends on OPT_B || OPT_C\n    depends on NUM_N != 0\n')
+_F("default-expression-value", 'config REL\n    bool "rel"\n    default OPT_A && !OPT_B if OPT_C\n    default OPT_A || OPT_B\n')
+_F("undefined-symbol-operand", 'config REL\n    bool "rel"\n    depends on NOT_DEFINED || OPT_A\n    default y if ALSO_UNDEFINED = 3\n')
+# ---- source family --------------------------------------------------------------------------------------
+_INC = 'config INC_%s\n    bool "inc %s"\n    default y\n'
+_F("source-abs-env-macro", 'source "$(INC_DIR)/Kconfig.inc"\nosource "$(INC_DIR)/Kconfig.missing"\nosource "$(INC_DIR)/Kconfig.opt"\n',
+   files={"inc/Kconfig.inc": _INC % ("ONE", "one"), "inc/Kconfig.opt": _INC % ("OPT", "opt")}, env={"INC_DIR": "@ROOT@/inc"})
+_F("source-abs-env-dollar", 'source "$INC_DIR/Kconfig.inc"\nsource "${INC_DIR}/Kconfig.two"\n',
+   files={"inc/Kconfig.inc": _INC % ("ONE", "one"), "inc/Kconfig.two": _INC % ("TWO", "two")}, env={"INC_DIR": "@ROOT@/inc"})
+_F("rsource-same-dir", 'rsource "Kconfig.inc"\norsource "Kconfig.missing"\norsource "./Kconfig.opt"\n',
+   files={"Kconfig.inc": _INC % ("ONE", "one"), "Kconfig.opt": _INC % ("OPT", "opt")})
+_F("rsource-nested-dirs", 'menu "drivers"\n    depends on OPT_A\n    rsource "drivers/Kconfig.drivers"\nendmenu\n\nconfig LAST\n    bool "last"\n    default y if SPI_SPEED >= 10\n',
+   files={"drivers/Kconfig.drivers": 'config DRV_COMMON\n    bool\n    default y\n\nrsource "Kconfig.bus"\nrsource "spi/Kconfig.spi"\n',
+          "drivers/Kconfig.bus": 'config BUS_DMA\n    bool "dma"\n    default y\n',
+          "drivers/spi/Kconfig.spi": 'menu "SPI"\n    config SPI_SPEED\n        int "speed"\n        range 1 80\n        default 40 if BUS_DMA\n        default 10\nendmenu\n\nrsource "Kconfig.spi_extra"\n',
+          "drivers/spi/Kconfig.spi_extra": 'config SPI_QUAD\n    bool "quad"\n    depends on SPI_SPEED > 20\n    default y\n'})
+_F("orsource-nested-dirs", 'source "$SUB/Kconfig.sub"\n',
+   files={"sub/Kconfig.sub": 'orsource "Kconfig.next"\n\nif OPT_A\norsource "deep/Kconfig.deep"\norsource "deep/Kconfig.nothing"\nendif\n',
+          "sub/Kconfig.next": _INC % ("NEXT", "next"), "sub/deep/Kconfig.deep": _INC % ("DEEP", "deep")}, env={"SUB": "@ROOT@/sub"})
+_F("rsource-relative-root", 'rsource "inc/Kconfig.inc"\n', files={"inc/Kconfig.inc": _INC % ("ONE", "one") + '\nrsource "Kconfig.two"\n',
+                                                              "inc/Kconfig.two": _INC % ("TWO", "two")}, relroot=True)
+_F("source-glob", 'rsource "parts/Kconfig.*"\n', files={"parts/Kconfig.b": _INC % ("PB", "pb"), "parts/Kconfig.a": _INC % ("PA", "pa"),
+                                                       "parts/Kconfig.c": _INC % ("PC", "pc")})
+_F("source-inside-menu-if-choice", 'menu "m"\n    rsource "Kconfig.inc"\nendmenu\n\nif OPT_A\n    rsource "Kconfig.two"\nendif\n\nchoice CH\n    prompt "ch"\n    rsource "Kconfig.members"\nendchoice\n',
+   files={"Kconfig.inc": _INC % ("ONE", "one"), "Kconfig.two": _INC % ("TWO", "two"),
+          "Kconfig.members": 'config MEM_X\n    bool "x"\n\nconfig MEM_Y\n    bool "y"\n'})
+_F("source-empty-file", 'rsource "Kconfig.empty"\nrsource "Kconfig.onlycomment"\n\nconfig AFTER\n    bool "after"\n',
+   files={"Kconfig.empty": "", "Kconfig.onlycomment": "# nothing here\n\n"})
+_F("source-missing-rejected", 'rsource "Kconfig.not_there"\n')
+_F("source-recursive-rejected", 'rsource "Kconfig.loop"\n', files={"Kconfig.loop": 'config LOOPED\n    bool "l"\n\nrsource "Kconfig.loop"\n'})
+# ---- comments, menus, menuconfig, visible if ---------------------------------------------------------
+_F("comment-depends", 'comment "note one"\n    depends on OPT_A\n\ncomment "note two"\n    depends on OPT_B\n    depends on NUM_N > 3\n\ncomment "plain"\n\nconfig AFTER\n    bool "after"\n')
+_F("comment-last-in-file", 'comment "the end"\n    depends on OPT_A && !OPT_B\n')
+_F("comment-in-menu-and-if", 'menu "m"\n    comment "inside"\n        depends on OPT_C\n    config IN_M\n        bool "in m"\nendmenu\n\nif OPT_A\ncomment "in if"\nendif\n')
+_F("menuconfig-children", 'menuconfig MC\n    bool "mc"\n    default y\n\nconfig MC_ONE\n    int "one"\n    depends on MC\n    default 3\n\nif MC\n\nconfig MC_TWO\n    hex "two"\n    default 0xFF\n\nendif\n\nconfig NOT_CHILD\n    bool "nc"\n')
+_F("menuconfig-nonbool", 'menuconfig MC\n    int "mc"\n    range 0 10\n    default 4\n    help\n        Numeric menuconfig.\n\nconfig MC_ONE\n    bool "one"\n    depends on MC > 2\n')
+_F("menu-visible-if", 'menu "crew"\n    visible if OPT_A && NUM_N > 2\n\n    config CREW\n        int "crew"\n        default 430\n\nendmenu\n')
+_F("menu-depends-and-visible", 'menu "outer"\n    depends on OPT_A\n    visible if OPT_B\n\n    menu "inner"\n        visible if !OPT_C\n        depends on NUM_N = 5\n\n        config DEEP\n            string "deep"\n            default "x"\n\n    endmenu\n\n    config SHALLOW\n        bool "shallow"\n\nendmenu\n')
+_F("menu-empty", 'menu "empty"\nendmenu\n\nmenu "empty with dep"\n    depends on OPT_A\nendmenu\n\nconfig AFTER\n    bool "after"\n')
+_F("menu-nested-three", 'menu "l1"\nmenu "l2"\nmenu "l3"\nconfig DEEP\n    bool "deep"\nendmenu\nconfig MID\n    bool "mid"\nendmenu\nendmenu\n')
+_F("if-nested", 'if OPT_A\n\nconfig IN_ONE\n    bool "one"\n\nif !OPT_B && NUM_N > 1\n\nconfig IN_TWO\n    int "two"\n    default 2\n\nif OPT_C\nconfig IN_THREE\n    string "three"\nendif\n\nendif\n\nendif\n')
+_F("if-empty", 'if OPT_A\nendif\n\nconfig AFTER\n    bool "after"\n')
+_F("indented-entries", 'menu "m"\n        config DEEPLY\n                bool "deeply indented"\n                default y\n    config LESS\n      int "two spaces"\n      default 1\nendmenu\n')
+_F("tab-indentation", 'config TABBED\n\tbool "tabbed"\n\tdefault y if OPT_A\n\thelp\n\t\tHelp with tabs.\n\t\tSecond line.\n\nconfig AFTER\n\tint "after"\n\tdefault 3\n')
+# ---- help texts -------------------------------------------------------------------------------------------
+_F("help-blank-line", 'config HLP\n    bool "hlp"\n    help\n        First paragraph.\n\n        Second paragraph.\n\nconfig AFTER\n    bool "after"\n')
+_F("help-two-blank-lines", 'config HLP\n    int "hlp" if OPT_A\n    range 0 9\n    default 3\n    help\n        First paragraph.\n\n\n        Second paragraph.\n        It has two lines.\n\nconfig AFTER\n    bool "after"\n    default y if HLP > 2\n')
+_F("help-three-blank-lines-then-option", 'menu "tuning"\n    depends on OPT_A\n\n    config HLP\n        int "hlp"\n        help\n            Synopsis.\n\n\n\n            Details after three blank lines.\n              - indented item\n        default 7 if OPT_A\n        default 1\n\nendmenu\n\nconfig AFTER\n    bool "after"\n')
+_F("help-over-indented-lines", 'config HLP\n    bool "hlp"\n    help\n        Normal.\n            Deeper.\n                * bullet\n          odd\n        Back.\n\nconfig AFTER\n    bool "after"\n')
+_F("help-first-line-deeper", 'config HLP\n    bool "hlp"\n    help\n            Starts deep.\n            Same level.\n\nconfig AFTER\n    bool "after"\n')
+_F("help-whitespace-only-lines", 'config HLP\n    bool "hlp"\n    help\n        One.\n        \n   \n        Two.\n\nconfig AFTER\n    bool "after"\n')
+_F("help-at-end-of-file", 'config HLP\n    bool "hlp"\n    help\n        Last thing in the file.\n\n        Really.\n')
+_F("help-at-end-no-newline", 'config HLP\n    bool "hlp"\n    help\n        No newline at the end.')
+_F("help-keywords-inside", 'config HLP\n    bool "hlp"\n    help\n        config NOT_A_CONFIG\n        default y if this is help\n        endmenu\n        "quoted" $(NOT_EXPANDED) ${NOR_THIS}\n        help\n\nconfig AFTER\n    bool "after"\n')
+_F("help-hash-inside", 'config HLP\n    bool "hlp"\n    help\n        Use #define FOO to enable.\n        # a line that starts with a hash\n\nconfig AFTER\n    bool "after"\n')
+_F("help-backslash-at-line-end", 'config HLP\n    bool "hlp"\n    help\n        A path ends here: C:\\dir\\\n        next line.\n\nconfig AFTER\n    bool "after"\n')
+_F("help-then-options", 'config HLP\n    int "hlp"\n    help\n        Text.\n    default 4\n    range 0 5\n    depends on OPT_A\n')
+_F("help-on-choice-and-menuconfig", 'choice CH\n    prompt "ch"\n    help\n        Choice help.\n\n        More.\n\n    config CH_X\n        bool "x"\n        help\n            Member help.\n\n    config CH_Y\n        bool "y"\n\nendchoice\n\nmenuconfig MC\n    bool "mc"\n    help\n        MC help.\n')
+_F("help-trailing-spaces", 'config HLP\n    bool "hlp"\n    help\n        Trailing spaces   \n        second line.\n\nconfig AFTER\n    bool "after"\n')
+_F("help-tabs", 'config HLP\n    bool "hlp"\n    help\n        a\ttab inside\n\tTab indented line.\n\nconfig AFTER\n    bool "after"\n')
+# ---- line continuation, #-comments --------------------------------------------------------------------
+_F("line-continuation", 'config CONT\n    bool "cont"\n    default y if OPT_A && \\\n        OPT_B || \\\n        OPT_C\n    depends on NUM_N > 1 \\\n        && NUM_M > 1\n\nconfig AFTER\n    bool "after"\n')
+_F("line-continuation-in-prompt-line", 'config CONT\n    bool "cont" \\\n        if OPT_A\n    select \\\n        TGT\n\n' + _tgt())
+_F("hash-comments", '# full line\nconfig HC # trailing on entry\n    bool "hc" # trailing on type\n    default y if OPT_A # trailing on default\n    # between options\n    depends on OPT_C # trailing\n\n    # indented comment after options\nconfig AFTER\n    string "after # not a comment"\n    default "a # b" # real comment\n')
+_F("hash-comment-before-mainmenu", 'config ONLY\n    bool "only"\n', base=False)
+_FRAGS[-1]["text"] = '# leading comment\n\n# another\nmainmenu "T"\n\nconfig ONLY\n    bool "only"\n'
+_F("mainmenu-only", 'mainmenu "just a title"\n', base=False)
+_F("mainmenu-indented-entries", 'mainmenu "T"\n\n    config IND_ONE\n        bool "one"\n        default y\n\n    menu "m"\n        config IND_TWO\n            int "two"\n            default 2\n    endmenu\n', base=False)
+# ---- strings ----------------------------------------------------------------------------------------------
+_F("string-escapes", 'config ESC\n    string "esc"\n    default "say \\"hi\\""\n\nconfig ESC2\n    string "esc2"\n    default "C:\\\\tmp\\\\x"\n\nconfig ESC3\n    string "esc3"\n    default "tail\\\\"\n\nconfig CMP\n    bool "cmp"\n    default y if ESC = "say \\"hi\\"" && ESC2 != "C:\\\\tmp"\n')
+_F("string-single-quotes", "config SQ\n    string 'single quoted prompt'\n    default 'single \"inner\" value'\n\nconfig SQ2\n    string \"double 'inner' prompt\"\n    default \"it's\"\n")
+_F("string-empty-and-spaces", 'config EMP\n    string "emp"\n    default ""\n\nconfig SPC\n    string "spc"\n    default " lead and trail "\n\nconfig CMP\n    bool "cmp"\n    default y if EMP = "" && SPC != " "\n')
+_F("string-double-space-value", 'config DS\n    string "ds"\n    default "a  b"\n')
+_F("string-tab-in-value", 'config TB\n    string "tb"\n    default "a\tb"\n')
+_F("string-keyword-if-inside", 'config KW\n    string "kw"\n    default "x if y"\n')
+_F("string-keyword-if-inside-cond", 'config KW\n    bool "kw"\n    default y if STR_S = "x if y"\n')
+_F("string-hash-after-escaped-quote", 'config HQ\n    string "hq"\n    default "a\\"#b"\n')
+_F("string-operators-inside", 'config OPS\n    string "ops"\n    default "a && b || !c = (d)"\n\nconfig CMP\n    bool "cmp"\n    default y if OPS = "a && b || !c = (d)"\n')
+_F("string-nonascii", 'config UNI\n    string "čaj ☕"\n    default "日本 ž"\n    help\n        Ünïcode help ☕.\n')
+_F("prompt-double-space", 'config PDS\n    bool "two  spaces   inside"\n')
+_F("prompt-quotes-inside", 'config PQ\n    bool "say \\"hi\\" now"\n\nconfig PQ2\n    bool "it\'s"\n')
+_F("prompt-leading-trailing-space", 'config PLT\n    bool " padded "\n\ncomment " padded comment "\n\nmenu " padded menu "\nendmenu\n')
+_F("prompt-keyword-words", 'config PKW\n    bool "if default depends on help"\n\nconfig PKW2\n    int\n    prompt "prompt select if" if OPT_A\n')
+_F("prompt-if", 'config PIF\n    int "pif" if OPT_A && NUM_N > 1\n    default 3\n\nconfig PIF2\n    string\n    prompt "pif2" if !OPT_B\n    default "v"\n')
+_F("prompt-if-inside-if-and-menu", 'menu "m"\n    depends on OPT_C\n    if OPT_A\n    config PIF\n        bool "pif" if OPT_B\n        depends on NUM_N > 0\n    endif\nendmenu\n')
+_F("prompt-hash-inside", 'config PH\n    bool "a # b"\n\ncomment "c # d"\n\nmenu "e # f"\nendmenu\n')
+_F("menu-title-double-space", 'menu "two  spaces"\n    config IN_M\n        bool "in m"\nendmenu\n\ncomment "two  spaces"\n')
+_F("menu-title-escaped-quotes", 'menu "the \\"big\\" menu"\n    config IN_M\n        bool "in m"\nendmenu\n')
+_F("comment-title-escaped-quotes", 'comment "a \\"quoted\\" note"\n    depends on OPT_A\n')
+_F("mainmenu-title-escaped-quotes", 'mainmenu "the \\"T\\" menu"\n\nconfig ONLY\n    bool "only"\n', base=False)
+_F("prompt-macro-reference", 'MOTORS := 8\n\nconfig PMR\n    bool "uses $(MOTORS) motors"\n\nmenu "menu for $(MOTORS)"\nendmenu\n\ncomment "comment for $(MOTORS)"\n')
+_F("prompt-env-reference", 'config PER\n    bool "home is $ENV_ONE"\n\nconfig PER2\n    bool "braces ${ENV_ONE} and $(ENV_ONE)"\n', env={"ENV_ONE": "one"})
+_F("warning-option", 'config WRN\n    bool "wrn"\n    warning "Be careful: this is dangerous!"\n    help\n        Dangerous.\n\nmenuconfig WRN2\n    int "wrn2"\n    default 1\n    warning "second one"\n')
+_F("warning-double-space-and-quotes", 'config WRN\n    bool "wrn"\n    warning "two  spaces and \\"quotes\\""\n')
+# ---- option env= / environment / macros --------------------------------------------------------------
+_F("option-env-set", 'config FROM_ENV\n    string "from env"\n    option env="ENV_ONE"\n\nconfig USES\n    bool "uses"\n    default y if FROM_ENV = "value one"\n', env={"ENV_ONE": "value one"})
+_F("option-env-unset", 'config FROM_ENV\n    string "from env"\n    option env="ENV_NOT_SET_ANYWHERE"\n    default "fallback"\n')
+_F("option-env-same-name", 'config ENV_SAME\n    string\n    option env="ENV_SAME"\n', env={"ENV_SAME": "same"})
+_F("env-quoted-braces", 'config EQ\n    string "eq"\n    default "${ENV_ONE}"\n\nconfig EQ_UNSET\n    string "equ"\n    default "${ENV_NOT_SET_ANYWHERE}"\n', env={"ENV_ONE": "value one"})
+_F("env-quoted-embedded", 'config EE\n    string "ee"\n    default "/p/${ENV_ONE}/x"\n\nconfig EE2\n    string "ee2"\n    default "$(ENV_ONE)/x"\n\nconfig EE3\n    string "ee3"\n    default "pre-$ENV_ONE"\n', env={"ENV_ONE": "one"})
+_F("env-in-condition", 'config EC\n    bool "ec"\n    default y if "$(ENV_ONE)" = "one"\n    depends on "${ENV_ONE}" != "two"\n', env={"ENV_ONE": "one"})
+_F("macro-define-and-use", 'MAX_MOTORS := 8\nMIN_MOTORS = 1\nNAME_STR := "enterprise"\n\nconfig MOTORS\n    int "motors"\n    range $(MIN_MOTORS) $(MAX_MOTORS)\n    default $(MAX_MOTORS)\n\nconfig MOTORS_STR\n    string "motors str"\n    default "$(MAX_MOTORS)"\n\nconfig SHIP\n    string "ship"\n    default $(NAME_STR)\n\nconfig CMP\n    bool "cmp"\n    default y if MOTORS > $(MIN_MOTORS)\n')
+_F("macro-hex-float-bool", 'MASK := 0xFF\nRATIO = 2.5\nFLAG := y\n\nconfig MSK\n    hex "msk"\n    default $(MASK)\n\nconfig RAT\n    float "rat"\n    default $(RATIO)\n\nconfig FLG\n    bool "flg"\n    default $(FLAG)\n')
+_F("macro-from-env", 'config ME\n    int "me"\n    default $(ENV_NUM)\n\nconfig ME_STR\n    string "me str"\n    default "$(ENV_NUM)"\n', env={"ENV_NUM": "42"})
+_F("macro-redefined", 'LEVEL := 1\nLEVEL := 2\n\nconfig LVL\n    int "lvl"\n    default $(LEVEL)\n')
+_F("macro-in-sourced-file", 'LIMIT := 9\n\nrsource "Kconfig.inc"\n\nconfig USES_INNER\n    int "ui"\n    default $(INNER)\n', files={"Kconfig.inc": 'INNER = 3\n\nconfig LIM\n    int "lim"\n    range 0 $(LIMIT)\n    default $(INNER)\n'})
+_F("macro-undefined-quoted", 'config UQ\n    string "uq"\n    default "$(NOT_DEFINED_MACRO)"\n')
+_F("macro-undefined-unquoted-rejected", 'config UU\n    int "uu"\n    default $(NOT_DEFINED_MACRO)\n')
+_F("macro-used-before-definition-quoted", 'config EARLY\n    string "early"\n    default "$(LATER)"\n\nLATER := "v"\n\nconfig LATE\n    string "late"\n    default "$(LATER)"\n')
+# ---- choices -------------------------------------------------------------------------------------------------
+_F("choice-named-default-if", 'choice CH\n    prompt "ch" if OPT_A\n    default CH_Y if OPT_B\n    default CH_X\n    depends on OPT_C\n\n    config CH_X\n        bool "x"\n\n    config CH_Y\n        bool "y"\n        depends on NUM_N > 1\n\n    config CH_Z\n        bool "z" if OPT_B\n\nendchoice\n')
+_F("choice-unnamed-twice", 'choice\n    prompt "first"\n\n    config F_X\n        bool "x"\n\n    config F_Y\n        bool "y"\n\nendchoice\n\nchoice\n    prompt "second"\n    default S_Y\n\n    config S_X\n        bool "x"\n\n    config S_Y\n        bool "y"\n\nendchoice\n')
+_F("choice-typed-inline-prompt", 'choice CH\n    bool "typed choice" if OPT_A\n    default CH_Y\n\n    config CH_X\n        bool "x"\n\n    config CH_Y\n        bool "y"\n\nendchoice\n')
+_F("choice-nested", 'choice OUTER\n    prompt "outer"\n\n    config O_X\n        bool "x"\n\n    choice INNER\n        prompt "inner"\n        default I_B\n\n        config I_A\n            bool "a"\n\n        config I_B\n            bool "b"\n\n    endchoice\n\n    config O_Y\n        bool "y"\n\nendchoice\n')
+_F("choice-if-inside", 'choice CH\n    prompt "ch"\n\n    config CH_X\n        bool "x"\n\n    if OPT_A\n\n    config CH_Y\n        bool "y"\n\n    if !OPT_B\n    config CH_Z\n        bool "z"\n    endif\n\n    endif\n\nendchoice\n')
+_F("choice-menu-and-comment-inside", 'choice CH\n    prompt "ch"\n\n    config CH_X\n        bool "x"\n\n    comment "inside choice"\n        depends on OPT_A\n\n    menu "inside"\n        visible if CH_X\n\n        config IN_MENU\n            int "in menu"\n            default 8\n\n    endmenu\n\n    config CH_Y\n        bool "y"\n\nendchoice\n')
+_F("choice-member-selects-and-sets", 'choice CH\n    prompt "ch"\n    default CH_Y\n\n    config CH_X\n        bool "x"\n        select TGT\n        set NUM_T=1\n\n    config CH_Y\n        bool "y"\n        imply TGT if OPT_A\n        set default NUM_T=2 if OPT_A\n\nendchoice\n\n' + _tgt() + '\nconfig NUM_T\n    int "num t"\n    default 0\n')
+_F("choice-defined-twice", 'choice CH\n    prompt "ch"\n\n    config CH_X\n        bool "x"\n\nendchoice\n\nchoice CH\n    prompt "ch again"\n\n    config CH_Y\n        bool "y"\n\nendchoice\n')
+_F("choice-in-if-and-menu", 'menu "m"\n    visible if OPT_A\n    if OPT_C\n    choice CH\n        prompt "ch"\n        config CH_X\n            bool "x"\n        config CH_Y\n            bool "y"\n    endchoice\n    endif\nendmenu\n')
+_F("choice-no-blank-lines", 'choice CH\n    prompt "ch"\n    config CH_X\n        bool "x"\n    config CH_Y\n        bool "y"\nendchoice\nconfig AFTER\n    bool "after"\n')
+# ---- multiple definitions --------------------------------------------------------------------------------
+_F("multi-def-same-file", 'config DUP\n    int "dup"\n    default 1\n    range 0 5\n\nmenu "again"\n    depends on OPT_A\n\n    config DUP\n        int "dup second" if OPT_B\n        default 3 if OPT_A\n        range 2 9 if OPT_B\n\nendmenu\n')
+_F("multi-def-pragma", 'config DUP # ignore: multiple-definition\n    bool "dup"\n    default y\n\nconfig DUP\n    bool\n    default n if OPT_B\n    help\n        Second definition.\n')
+_F("multi-def-across-files", 'config DUP\n    string "dup"\n    default "root"\n\nrsource "Kconfig.inc"\n', files={"Kconfig.inc": 'config DUP\n    string\n    default "inc" if OPT_B\n\nconfig DUP\n    string "third"\n'})
+_F("multi-def-three-with-select", 'config DUP\n    bool "dup"\n    select TGT\n\nconfig DUP\n    bool\n    imply TGT2\n\nconfig DUP\n    bool\n    depends on OPT_A\n    default y\n\n' + _tgt() + '\nconfig TGT2\n    bool "tgt2"\n')
+# ---- set / set default ------------------------------------------------------------------------------------
+_F("set-if", 'config SRC\n    bool "src"\n    default y\n    set NUM_T=6 if OPT_A\n    set STR_T="forced" if !OPT_B && NUM_N > 1\n\nconfig NUM_T\n    int "num t"\n    default 1\n\nconfig STR_T\n    string "str t"\n    default "free"\n')
+_F("set-default-if", 'config SRC\n    bool "src"\n    default y\n    set default NUM_T=6 if OPT_A\n    set default HEX_T=0xAB if OPT_A || OPT_B\n    set default FLT_T=2.5\n\nconfig NUM_T\n    int "num t"\n    depends on OPT_C\n\nconfig HEX_T\n    hex "hex t"\n    default 0x1\n\nconfig FLT_T\n    float "flt t"\n')
+_F("set-spaces-around-equals", 'config SRC\n    bool "src"\n    default y\n    set NUM_T = 6\n    set default STR_T = "weak" if OPT_A\n\nconfig NUM_T\n    int "num t"\n    default 1\n\nconfig STR_T\n    string "str t"\n')
+_F("set-symbol-value", 'config SRC\n    bool "src"\n    default y\n    set NUM_T=NUM_N if OPT_A\n    set default STR_T=STR_S\n\nconfig NUM_T\n    int "num t"\n    default 1\n\nconfig STR_T\n    string "str t"\n')
+_F("set-string-with-spaces-and-if-word", 'config SRC\n    bool "src"\n    default y\n    set STR_T="two words" if OPT_A\n\nconfig STR_T\n    string "str t"\n')
+_F("set-negative-and-range", 'config SRC\n    bool "src"\n    default y\n    set NUM_T=-3\n    set default NUM_U=100\n\nconfig NUM_T\n    int "num t"\n    default 1\n\nconfig NUM_U\n    int "num u"\n    range 0 10\n')
+_F("set-on-menuconfig-and-multi-source", 'menuconfig SRC\n    bool "src"\n    default y\n    set NUM_T=1\n\nconfig SRC2\n    bool "src2"\n    default y\n    set NUM_T=2 if OPT_A\n    set default NUM_T=3\n\nconfig NUM_T\n    int "num t"\n    depends on SRC\n')
+_F("set-on-nonbool-ignored", 'config SRC\n    int "src"\n    default 1\n    set NUM_T=6\n    set default NUM_T=7\n\nconfig NUM_T\n    int "num t"\n    default 1\n')
+# ---- ranges, literals ----------------------------------------------------------------------------------------
+_F("range-symbols", 'config RNG\n    int "rng"\n    range NUM_N NUM_M\n    default 100\n\nconfig RNG2\n    int "rng2"\n    range 0 NUM_N if OPT_A\n    range NUM_M 50\n    default 60\n')
+_F("range-hex-float", 'config RH\n    hex "rh"\n    range 0x10 0xFF\n    default 0x100\n\nconfig RF\n    float "rf"\n    range -1.5 2.5 if OPT_A\n    default 3.0\n\nconfig RF2\n    float "rf2"\n    range 0 FLT_F\n    default 9.9\n')
+_F("range-negative", 'config RN\n    int "rn"\n    range -10 -1\n    default 0\n')
+_F("range-macro", 'LOW := 2\nHIGH := 4\n\nconfig RM\n    int "rm"\n    range $(LOW) $(HIGH) if OPT_A\n    default 9\n')
+_F("int-literals", 'config IL\n    int "il"\n    default -3 if OPT_B\n    default 007 if NUM_N = 0\n    default 1234567890\n')
+_F("hex-literals", 'config HL\n    hex "hl"\n    default 0XAB if OPT_B\n    default 0xabcdef if NUM_N = 0\n    default 0x0\n\nconfig HL2\n    hex "hl2"\n    default 0x1F\n\nconfig CMP\n    bool "cmp"\n    default y if HL2 = 0x1f && HL < 0x10\n')
+_F("float-literals", 'config FL\n    float "fl"\n    default -2.5 if OPT_B\n    default 1e3 if NUM_N = 0\n    default 3.14\n\nconfig FL2\n    float "fl2"\n    default 2E2\n\nconfig FL3\n    float "fl3"\n    default 10.0\n\nconfig CMP\n    bool "cmp"\n    default y if FL > 3.0 && FL2 <= 2e2\n')
+_F("float-decimal-exponent", 'config FE\n    float "fe"\n    default 1.5e-3\n')
+_F("float-negative-exponent", 'config FE\n    float "fe"\n    default 1e-3\n\nconfig FE2\n    float "fe2"\n    default -2E-2\n    range -1e-1 1e-1\n')
+_F("float-plus-exponent", 'config FE\n    float "fe"\n    default -2E+2\n')
+_F("version-like-literals", 'config VER\n    string "ver"\n    default "5.3.1"\n\nconfig CMP\n    bool "cmp"\n    default y if VER = "5.3.1"\n')
+_F("bool-literal-defaults", 'config BL\n    bool "bl"\n    default "y"\n\nconfig BL2\n    bool "bl2"\n    default n\n\nconfig BL3\n    bool "bl3"\n    default y if "y" = "y"\n')
+_F("default-on-choice-member-ignored", 'choice CH\n    prompt "ch"\n    config CH_X\n        bool "x"\n        default y\n    config CH_Y\n        bool "y"\nendchoice\n')
+_F("lowercase-symbol-names", 'config lower_case\n    bool "lc"\n    default y\n\nconfig Mixed_Case\n    int "mc"\n    default 3 if lower_case\n')
+_F("type-after-options", 'config LATE\n    default 5\n    range 0 9\n    int "late typed"\n')
+_F("promptless-everything", 'config HID\n    bool\n    default y if OPT_A\n\nconfig HID2\n    int\n    default NUM_N\n\nconfig HID3\n    string\n')
+_F("dependency-loop-rejected", 'config LOOP_A\n    bool "la"\n    depends on LOOP_B\n\nconfig LOOP_B\n    bool "lb"\n    depends on LOOP_A\n')
+_F("crlf-line-endings", 'config CR\r\n    bool "cr"\r\n    default y\r\n    help\r\n        Windows help.\r\n\r\nconfig AFTER\r\n    int "after"\r\n    default 3\r\n')
+_F("no-final-newline", 'config NF\n    bool "nf"\n    default y if OPT_A')
+_F("blank-lines-between-options", 'config BLK\n\n    bool "blk"\n\n    default y\n\n\n    depends on OPT_A\n\nconfig AFTER\n    bool "after"\n')
+
+# deliberately invalid sources: each breaks one documented rule.  They are OUTSIDE the property's quantifier
+# ("every Kconfig source in the documented language"); the driver evaluates them and lists what happens under
+# "notes", but nothing they do is reported as a violation.
+_INVALID = [
+    ("missing-endmenu", _P + 'menu "m"\nconfig IN_M\n    bool "x"\n'),
+    ("missing-endif", _P + 'if OPT_A\nconfig IN_IF\n    bool "x"\n'),
+    ("missing-endchoice", _P + 'choice CH\n    prompt "c"\nconfig CH_X\n    bool "x"\n'),
+    ("stray-endmenu", _P + 'config ONE\n    bool "x"\n\nendmenu\n'),
+    ("stray-endif", _P + 'config ONE\n    bool "x"\n\nendif\n'),
+    ("config-without-name", _P + 'config\n    bool "x"\n'),
+    ("config-without-type", _P + 'config NOTYPE\n    prompt "x"\n'),
+    ("unknown-option", _P + 'config ONE\n    bool "x"\n    frobnicate y\n'),
+    ("unterminated-string", _P + 'config ONE\n    bool "x\n'),
+    ("depends-without-on", _P + 'config ONE\n    bool "x"\n    depends OPT_A\n'),
+    ("range-one-bound", _P + 'config ONE\n    int "x"\n    range 1\n'),
+    ("dangling-operator", _P + 'config ONE\n    bool "x"\n    depends on OPT_A &&\n'),
+    ("unbalanced-paren", _P + 'config ONE\n    bool "x"\n    depends on (OPT_A || OPT_B\n'),
+    ("select-constant", _P + 'config ONE\n    bool "x"\n    select "str"\n'),
+    ("no-mainmenu", 'config ONE\n    bool "x"\n'),
+    ("two-mainmenus", _P + 'mainmenu "again"\n\nconfig ONE\n    bool "x"\n'),
+    ("tristate-type", _P + 'config ONE\n    tristate "x"\n'),
+    ("def-bool", _P + 'config ONE\n    def_bool y\n'),
+    ("optional-choice", _P + 'choice CH\n    prompt "c"\n    optional\nconfig CH_X\n    bool "x"\nendchoice\n'),
+    ("help-dashes", _P + 'config ONE\n    bool "x"\n    ---help---\n        text\n'),
+    ("set-without-equals", _P + 'config ONE\n    bool "x"\n    set NUM_N 5\n'),
+    ("prompt-unquoted", _P + 'config ONE\n    bool unquoted\n'),
+    # not a rule violation but not a documented literal form either: language.rst / formal-base.rst only show hexadecimal literals
+    # with the 0x prefix; parser 1 reads a bare '1f' as a reference to an (undefined, lower-case) symbol named '1f'
+    ("hex-literal-without-prefix", _P + 'config HB\n    hex "hb"\n    default 1f\n'),
+]
+
+
+class _NoSpec(object):
+    syms = ()
+
+
+def fixture_paths():
+    """root Kconfig files shipped under <repo>/test (contain a mainmenu line) + the test suite's error inputs"""
+    out = []
+    base = os.path.join(REPO, "test")
+    for dirpath, dirnames, filenames in os.walk(base):
+        dirnames.sort()
+        for fn in sorted(filenames):
+            if not (fn.startswith("Kconfig") or fn.endswith(".in")):
+                continue
+            p = os.path.join(dirpath, fn)
+            try:
+                with open(p, encoding="utf-8") as f:
+                    text = f.read()
+            except (OSError, UnicodeDecodeError):
+                continue
+            rel = os.path.relpath(p, REPO)
+            is_root = re.search(r"^\s*mainmenu\b", text, re.M) is not None
+            in_errors = os.sep + "errors" + os.sep in p
+            if is_root or in_errors:
+                out.append((rel, "invalid" if in_errors else "valid"))
+    return out
+
+
+def build_cases(tier, seed):
+    """list of case descriptors (small, picklable); random trees are drawn inside the workers"""
+    n_random = 160 if tier == "quick" else 4000
+    cases = []
+    small2 = sum(1 for _ in gen.small_trees(2))
+    small3 = sum(1 for _ in gen.small_trees(3))
+    for i in range(small3):
+        cases.append({"kind": "small", "index": i, "id": "small:%d" % i})
+    for i in range(n_random):
+        cases.append({"kind": "random", "index": i, "seed": seed, "id": "random:%d:%d" % (seed, i)})
+    for rel, expect in fixture_paths():
+        cases.append({"kind": "fixture", "rel": rel, "expect": expect, "id": "fixture:" + rel})
+    for fr in _FRAGS:
+        cases.append({"kind": "frag", "frag": fr, "id": "frag:" + fr["id"]})
+    for iid, text in _INVALID:
+        cases.append({"kind": "invalid", "iid": iid, "text": text, "id": "invalid:" + iid})
+    return cases, {"small2": small2, "small3": small3, "random": n_random}
+
+
+_SMALL_CACHE = []
+
+
+def _ops_fn(key, spec, length):
+    def fn(k1):
+        if not k1.unique_defined_syms:
+            return []
+        rng = random.Random(zlib.crc32(key.encode("utf-8")))
+        return [list(op) for op in gen.gen_ops(rng, k1, spec, length)]
+    return fn
+
+
+def _materialise(case):
+    """-> list of concrete sub-cases: dict(id, group, files, env, expect, root, relroot, fixture_rel, ops_fn)"""
+    kind = case["kind"]
+    if kind == "small":
+        if not _SMALL_CACHE:
+            _SMALL_CACHE.extend(gen.small_trees(3))
+        spec = _SMALL_CACHE[case["index"]]
+        return [{"id": case["id"], "label": spec.origin, "group": "gen", "files": {"Kconfig": spec.text}, "env": {}, "expect": "valid",
+                 "ops_fn": _ops_fn(case["id"], spec, 3)}]
+    if kind == "random":
+        # the i-th random tree of gen.corpus(seed, count): gen_tree(Random(seed * 1000003 + i), 6); draws that the
+        # generator discarded because one of the parsers rejected them are checked as well (both must reject)
+        spec = gen.gen_tree(random.Random(case["seed"] * 1000003 + case["index"]), 6)
+        out = [{"id": case["id"], "label": case["id"], "group": "gen", "files": {"Kconfig": spec.text}, "env": {}, "expect": "valid",
+                "ops_fn": _ops_fn(case["id"], spec, 3)}]
+        for j, (text, _, _) in enumerate(spec.rejects[:4]):
+            out.append({"id": "%s:reject%d" % (case["id"], j), "label": case["id"] + " (discarded draw)", "group": "gen-discarded",
+                        "files": {"Kconfig": text}, "env": {}, "expect": "valid", "ops_fn": _ops_fn(case["id"], _NoSpec, 3)})
+        return out
+    if kind == "fixture":
+        return [{"id": case["id"], "label": case["rel"], "group": "fixture:" + case["rel"], "files": {}, "env": dict(FIXTURE_ENV),
+                 "expect": case["expect"], "fixture_rel": case["rel"], "ops_fn": _ops_fn(case["id"], _NoSpec, 4)}]
+    if kind == "frag":
+        fr = case["frag"]
+        files = dict(fr["files"])
+        files["Kconfig"] = fr["text"]
+        return [{"id": case["id"], "label": fr["id"], "group": "frag:" + fr["id"], "files": files, "env": dict(fr["env"]),
+                 "expect": fr["expect"], "relroot": fr["relroot"], "ops_fn": _ops_fn(case["id"], _NoSpec, 4)}]
+    if kind == "invalid":
+        return [{"id": case["id"], "label": case["iid"], "group": "invalid:" + case["iid"], "files": {"Kconfig": case["text"]}, "env": {},
+                 "expect": "invalid", "ops_fn": _ops_fn(case["id"], _NoSpec, 2)}]
+    raise ValueError(kind)
+
+
+def _run_sub(sub):
+    env = {k: v.replace("@REPO@", REPO) for k, v in sub["env"].items()}
+    fixture = os.path.join(REPO, sub["fixture_rel"]) if sub.get("fixture_rel") else None
+    res = check_case(sub["files"], env, sub["expect"], sub["ops_fn"], relroot=bool(sub.get("relroot")), fixture=fixture)
+    rec = {"id": sub["id"], "label": sub["label"], "group": sub["group"], "expect": sub["expect"], "status": res.get("status"),
+           "errors": res.get("errors"), "symptoms": res["symptoms"], "detail": res["detail"], "evaluations": res["evaluations"],
+           "nontrivial": res["nontrivial"], "n_ops": len(res["ops"]), "both_accept_invalid": res["both_accept_invalid"],
+           "digest": zlib.crc32(repr((sorted(sub["files"].items()), sub.get("fixture_rel"), sorted(sub["env"].items()))).encode("utf-8"))}
+    if res["symptoms"]:
+        rec["replay"] = {"files": sub["files"], "env": sub["env"], "expect": sub["expect"], "relroot": bool(sub.get("relroot")),
+                         "fixture_rel": sub.get("fixture_rel"), "ops": res["ops"]}
+    return rec
+
+
+def _work(chunk):
+    _quiet()
+    out = []
+    for case in chunk:
+        try:
+            subs = _materialise(case)
+        except gen.GenError as exc:
+            out.append({"id": case["id"], "gen_error": str(exc)[:300]})
+            continue
+        for sub in subs:
+            out.append(_run_sub(sub))
+    return out
+
+
+_SCRIPT_HEAD = '''#!/usr/bin/env python
+"""replay of rtc.drv_parsers (property C04) -- case %(id)s, class %(cls)s
+exit 1 if the violation shows on the tree named by env PYVC_REPO (default /repo), 0 otherwise"""
+import os
+import sys
+
+REPO = os.environ.get("PYVC_REPO", "/repo")
+sys.path.insert(0, REPO)
+import esp_kconfiglib.core as K  # noqa: E402
+from kconfgen.core import get_json_values  # noqa: E402
+
+import json  # noqa: E402
+import re  # noqa: E402
+import shutil  # noqa: E402
+import signal  # noqa: E402
+import tempfile  # noqa: E402
+
+ENV_NAMES = %(env_names)r
+LOAD_TIMEOUT = %(timeout)d
+
+'''
+
+_SCRIPT_TAIL = '''
+
+CASE = json.loads(%(case)r)
+SYMPTOM = %(symptom)r
+
+
+def main():
+    null = os.open(os.devnull, os.O_WRONLY)
+    os.dup2(null, 2)  # the library logs to the real stderr
+    env = {k: v.replace("@REPO@", REPO) for k, v in CASE["env"].items()}
+    fixture = os.path.join(REPO, CASE["fixture_rel"]) if CASE["fixture_rel"] else None
+    res = check_case(CASE["files"], env, CASE["expect"], lambda k1: CASE["ops"], relroot=CASE["relroot"], fixture=fixture)
+    print("parsers (1, 2):", res.get("status"), "symptoms:", res["symptoms"])
+    for d in res["detail"]:
+        print(d)
+    return 1 if SYMPTOM in res["symptoms"] else 0
+
+
+if __name__ == "__main__":
+    sys.exit(main())
+'''
+
+
+def _core_source():
+    with open(__file__.replace(".pyc", ".py"), encoding="utf-8") as f:
+        src = f.read()
+    return src[src.index("# --- CORE BEGIN ---"):src.index("# --- CORE END ---")]
+
+
+def make_script(rec, symptom, cls):
+    return (_SCRIPT_HEAD % {"id": rec["id"], "cls": cls, "env_names": ENV_NAMES, "timeout": LOAD_TIMEOUT}) + _core_source() + (
+        _SCRIPT_TAIL % {"case": json.dumps(rec["replay"]), "symptom": symptom})
+
+
+def run(prop, tier, seed, jobs):
+    t0 = time.time()
+    base = {"name": NAME, "property": prop, "kind": "bounded"}
+    try:
+        if prop not in PROPERTIES:
+            raise ValueError("drv_parsers serves %s, not %s" % (PROPERTIES, prop))
+        return _run(base, prop, tier, int(seed), max(1, int(jobs)), t0)
+    except Exception as exc:  # an exception of the driver itself is never a violation
+        import traceback
+        base.update({"status": "checker_error", "reason": "%s: %s" % (type(exc).__name__, exc), "trace": traceback.format_exc()[-3000:],
+                     "violations": [], "seconds": round(time.time() - t0, 2)})
+        return base
+
+
+def _run(base, prop, tier, seed, jobs, t0):
+    for name in ENV_NAMES:
+        os.environ.pop(name, None)
+    cases, counts = build_cases(tier, seed)
+    # interleave so that every chunk has the same mix of cheap and expensive cases
+    n_chunks = max(1, min(len(cases), jobs * 6))
+    chunks = [cases[i::n_chunks] for i in range(n_chunks)]
+    if jobs == 1:
+        parts = [_work(c) for c in chunks]
+    else:
+        ctx = multiprocessing.get_context("fork")
+        with ctx.Pool(jobs) as pool:
+            parts = pool.map(_work, chunks, chunksize=1)
+    order = {c["id"]: i for i, c in enumerate(cases)}
+    recs = sorted((r for part in parts for r in part), key=lambda r: (order.get(r["id"].split(":reject")[0], len(order)), r["id"]))
+    gen_errors = [r for r in recs if "gen_error" in r]
+    if gen_errors:
+        raise RuntimeError("generator could not draw a tree: %s" % gen_errors[0]["gen_error"])
+
+    evaluations = sum(r["evaluations"] for r in recs)
+    nontrivial = len({r["digest"] for r in recs if r["nontrivial"]})
+    by_class = {}
+    notes = []
+    for r in recs:
+        if r["expect"] == "invalid":
+            if r["symptoms"] or r["both_accept_invalid"]:
+                notes.append({"case": r["id"], "parsers": r["status"], "symptoms": r["symptoms"],
+                              "note": "outside the documented language: not a violation of C04"})
+            continue
+        for k, symptom in enumerate(r["symptoms"]):
+            cls = "%s|%s" % (r["group"], symptom)
+            ent = by_class.setdefault(cls, {"first": r, "symptom": symptom, "detail": r["detail"][k], "cases": []})
+            ent["cases"].append(r["id"])
+    violations = []
+    for cls in sorted(by_class):
+        ent = by_class[cls]
+        r, symptom = ent["first"], ent["symptom"]
+        contract = ("Kconfig.__init__ ACCEPTANCE" if symptom.startswith("accept:") else
+                    "Kconfig.__init__ TREE" if symptom.startswith("tree") else "Kconfig.__init__ OUTPUTS")
+        violations.append({
+            "case_class": cls, "contract": contract,
+            "detail": "%s [%d case(s): %s]\n%s" % (r["label"], len(ent["cases"]), ", ".join(ent["cases"][:5]), ent["detail"]),
+            "script": make_script(r, symptom, cls)})
+    valid = [r for r in recs if r["expect"] == "valid"]
+    both_ok = sum(1 for r in valid if r["status"] == ["ok", "ok"])
+    both_rej = sum(1 for r in valid if r["status"] == ["reject", "reject"])
+    samples = [{"case": r["id"], "label": r["label"], "parsers": r["status"], "ops": r["n_ops"], "evaluations": r["evaluations"]}
+               for r in (recs[0], recs[counts["small3"]], recs[len(recs) // 2], recs[-len(_INVALID) - 1], recs[-1])]
+    n_fix = sum(1 for c in cases if c["kind"] == "fixture")
+    base.update({
+        "status": "ok",
+        "bound": ("%d sources: gen.small_trees(3) = %d tiny trees (%d of them are gen.corpus's small_trees(2) part); the %d random trees of "
+                  "gen.corpus(seed=%d, count=%d, n_syms=6) (DEFAULT_FEATURES grammar of rtc/gen.py, <= 6 options) plus the draws the "
+                  "generator discarded because a parser rejected them; %d root Kconfig files under <repo>/test (every Kconfig*/*.in "
+                  "file with a mainmenu line, plus kconfigs/errors/*.in; environment as set by the test suite); %d hand-written "
+                  "fragments (imply/select with conditions, relations with '!', chains, source/rsource/osource/orsource with "
+                  "relative paths, globs and env macros, comments with depends, menuconfig, visible if, help shapes, line "
+                  "continuations, #-comments, string escapes, option env=, env references, macros, named/unnamed/nested "
+                  "choices, if inside choices, multiple definitions, set/set default with conditions, warning, symbolic ranges, "
+                  "int/hex/float literals, conditional prompts); %d deliberately invalid sources (notes only). Each accepted "
+                  "source: default configuration + a history of <= 4 user operations (rtc.gen op language) applied to both instances"
+                  % (len(recs), counts["small3"], counts["small2"], counts["random"], seed, counts["random"], n_fix, len(_FRAGS),
+                     len(_INVALID))),
+        "rule": ("fixed enumeration (tiny trees, fixtures in sorted path order, fragments) + random trees drawn with "
+                 "random.Random(seed * 1000003 + i); the history of a source is drawn with random.Random(crc32(case id)); the seed only "
+                 "rotates the random trees"),
+        "contracts": [
+            "Kconfig.__init__(parser_version=1) vs Kconfig.__init__(parser_version=2), same files and environment: ACCEPTANCE -- both "
+            "return or both raise KconfigError; any other exception / no answer within %d s of CPU time in either parser is a violation" % LOAD_TIMEOUT,
+            "Kconfig.__init__ x2: TREE -- if both return, the menu trees are equal node by node in pre-order with depth: entry kind, "
+            "name, type, is_menuconfig, prompt, prompt condition, help, warning, and expr_str of dep / visibility / defaults / "
+            "ranges / selects / implies / sets / weak_sets",
+            "Kconfig.__init__ x2 then write_config / write_autoconf / kconfgen.core.get_json_values: OUTPUTS -- equal texts / values in "
+            "the default configuration and after every step of the same history applied to both instances (and equal return values "
+            "of the operations)",
+        ],
+        "evaluations": evaluations,
+        "distinct_nontrivial": nontrivial,
+        "samples": samples,
+        "violations": violations,
+        "notes": notes,
+        "stats": {"sources": len(recs), "valid_both_accept": both_ok, "valid_both_reject": both_rej,
+                  "discarded_draws_checked": sum(1 for r in recs if r["group"] == "gen-discarded"), "classes": len(violations)},
+        "seconds": round(time.time() - t0, 2),
+    })
+    return base
+
+
+def main(argv):
+    prop = argv[1] if len(argv) > 1 else "C04"
+    tier = argv[2] if len(argv) > 2 else "quick"
+    seed = int(argv[3]) if len(argv) > 3 else 0
+    jobs = int(os.environ.get("VERIF_JOBS", "16"))
+    res = run(prop, tier, seed, jobs)
+    json.dump(res, sys.stdout, indent=1, default=str)
+    sys.stdout.write("\n")
+    return 0 if res.get("status") == "ok" else 3
+
+
+if __name__ == "__main__":
+    sys.exit(main(sys.argv))
